@@ -262,7 +262,8 @@ def libraryref_job(tier, timeout_ms=120000):
     bounds = dict(u.describe(), libraries=2, stubs=["prefix_append/prefix_pop/expect/parse_nameRef: no-ops (token glue)"])
     tw = {"pre_sat": M.check(A, True, 60000)[0], "returns": M.check(A, NOT(ctx.exc), 60000)[0],
           "raises": M.check(A, ctx.exc, 60000)[0]}
-    if any(v != "sat" for v in tw.values()):
+    # ("raises" is informational: a reader that never rejects is exactly what the second goal reports)
+    if tw["pre_sat"] != "sat" or tw["returns"] != "sat":
         return [result(name, VACUOUS, "E1/symheap", twins=tw, bounds=bounds, detail="reachability twin failed: %s" % tw)]
     out = []
     for g, (extra, goal) in goals.items():
